@@ -45,9 +45,12 @@ const (
 	// tinyCache holds a one-hash entry and two negative ones, but not a
 	// two-hash entry and not two one-hash entries.
 	tinyCache = 64
+	// microCache holds three negative entries and no entry with a hash (42
+	// bytes).
+	microCache = 30
 )
 
-var cacheSizes = []uint{0, smallCache, tinyCache}
+var cacheSizes = []uint{0, smallCache, tinyCache, microCache}
 
 // base is the virtual start instant; the fraction exercises the truncation of
 // the stored expiry to whole seconds.
@@ -169,7 +172,7 @@ func buildDBs(p namePool) []*dbSpec {
 
 type op struct {
 	Sc   string `json:"scenario"`
-	Kind string `json:"op"` // chk | adv | db
+	Kind string `json:"op"` // chk | adv | db | err (the next exchange with the service fails)
 	Name string `json:"name,omitempty"`
 	Secs int    `json:"seconds,omitempty"`
 	DB   string `json:"db,omitempty"`
@@ -206,6 +209,9 @@ func (sc *scenario) ops(quick bool) (ops []op) {
 	secs := int(cacheTTL / time.Second)
 	for _, s := range []int{1, secs - 1, secs + 1} {
 		ops = append(ops, op{Sc: sc.Label, Kind: "adv", Secs: s})
+	}
+	if len(sc.Pre) == 0 && !sc.Switch && sc.Size == 0 {
+		ops = append(ops, op{Sc: sc.Label, Kind: "err"})
 	}
 	if len(sc.Pre) > 0 {
 		for _, d := range []string{"empty", "parent"} {
@@ -364,6 +370,11 @@ func (sc *scenario) exec(hist []op) (st lib.Step) {
 			if last {
 				st.Outcome = fmt.Sprintf("adv:%d", o.Secs)
 			}
+		case "err":
+			svc.failNext = true
+			if last {
+				st.Outcome = "err"
+			}
 		case "db":
 			d := dbByKey[o.DB]
 			if d != svc.db {
@@ -382,9 +393,19 @@ func (sc *scenario) exec(hist []op) (st lib.Step) {
 				before = dump(chk, true)
 				beforeEntries, _ = chk.VerifCacheDump()
 			}
-			svc.log = nil
+			svc.log, svc.failed = nil, false
 			blocked, err, pan := safeCheck(func() (bool, error) { return chk.Check(o.Name) })
 			if !last {
+				continue
+			}
+			if svc.failed && pan == "" {
+				// The service was unreachable: the check may fail (and must not
+				// block); what it leaves in the cache is judged by the checks
+				// that follow.
+				st.Outcome = fmt.Sprintf("chk:%s:service-unreachable:err=%v", roleOf[o.Name], err != nil)
+				if blocked {
+					return fail("blocked-without-answer:"+roleOf[o.Name], "Check(%q) = blocked although the exchange with the service failed (%v)", o.Name, err)
+				}
 				continue
 			}
 			role := roleOf[o.Name]
@@ -434,6 +455,9 @@ func (sc *scenario) exec(hist []op) (st lib.Step) {
 		}
 	}
 	key := sc.Label + "|" + dump(chk, sc.Size != 0)
+	if svc.failNext {
+		key += "|next-exchange-fails"
+	}
 	if sc.Switch {
 		now := vtime.Now()
 		lo := now.Add(-cacheTTL)
@@ -828,7 +852,7 @@ func run(c *lib.Ctx) {
 	if !c.Quick() {
 		depthFixed, depthSwitch = 6, 6
 	}
-	c.Note("bfs_bounds", fmt.Sprintf("%d scenarios (25 databases x 2 answer packings x cache size {unlimited,%dB,%dB} with a fixed database (the one database whose answers span two prefixes: unlimited cache only), 6 with database switches, 2 more that start after [check(parent); parent gets listed]); operations check(name) over the pool, advance clock by {1s, CacheTime-1s, CacheTime+1s}, switch database (switch scenarios only); depth %d (fixed) / %d (switch)", len(labels), smallCache, tinyCache, depthFixed, depthSwitch))
+	c.Note("bfs_bounds", fmt.Sprintf("%d scenarios (25 databases x 2 answer packings x cache size {unlimited,%dB,%dB,30B} with a fixed database (the one database whose answers span two prefixes: unlimited cache only), 6 with database switches, 2 more that start after [check(parent); parent gets listed]); operations check(name) over the pool, advance clock by {1s, CacheTime-1s, CacheTime+1s}, the next exchange with the service fails (fixed database, unlimited cache), switch database (switch scenarios only); depth %d (fixed) / %d (switch)", len(labels), smallCache, tinyCache, depthFixed, depthSwitch))
 	// Scenarios are dealt to shard processes; inside one scenario the BFS is
 	// single-threaded because the virtual clock is process-global.
 	shardI, shardN := c.ShardI, c.ShardN
